@@ -90,6 +90,7 @@ class Rig:
         self.ref = RP.Board(declarer, self.trump)
         self.hands = {s: set(deal[s]) for s in SEATS}
         self.plays: List[int] = []
+        self.dummy_gets_copy = (sum(min(v) for v in deal.values() if v) + SEATS.index(declarer)) % 2 == 1
         self.dummy_open = False
         self.dead_obs: set = set()
 
@@ -124,12 +125,30 @@ class Rig:
         self.ref.play(card)
         self.plays.append(card)
         if len(self.plays) == 1 and self.obs:
-            # the opening lead has been made: dummy is exposed to the three other seats
+            # the opening lead has been made: dummy is exposed to the three other seats; in every other board the caller hands the
+            # exposed cards to ALL four observers alike (the dummy-seat observer then holds them twice: as its own hand and as a copy)
             dm = self.ref.dummy
             for s, o in self.obs.items():
-                if s != dm:
+                if s != dm or self.dummy_gets_copy:
                     o.set_dummy_hand({CARDS[x] for x in self.hands[dm]})
             self.dummy_open = True
+
+    def deepcopy_probe(self):
+        """copy.deepcopy of a board in progress (what search / roll-out code does): a card played on the copy must not be felt by the
+        original.  The original is then re-checked by every oracle."""
+        import copy as _copy
+        if self.ref.done():
+            return
+        seat = self.ref.active
+        card = default_card(self.hands, seat, self.ref.led())
+        for name, o in [('table', self.full)] + [(f'observer-{s}', o) for s, o in self.obs.items() if s not in self.dead_obs]:
+            try:
+                d = _copy.deepcopy(o)
+                d.play_card_by_player(CARDS[card], PL[seat])
+            except Exception as e:  # noqa
+                self.c.violate(f'C05:deepcopy:{type(e).__name__}', f'{self.where()}: a deep copy of {name} cannot play the card the original could: {e!r}', self.rp())
+        self.c.inc('deepcopy_probes')
+        self.check()
 
     def _is_revoke(self, seat, card) -> bool:
         led = self.ref.led()
@@ -275,6 +294,16 @@ class Rig:
                     c.violate(f'C05:accepted:{kind}:{"table" if seat_o is None else "observer"}',
                               f'{self.where()}: {name} accepted the {kind} play of card {card} by {s} (on turn: {active})', self.rp({'fault': [kind, s, card, name]}))
                     if seat_o is None:
+                        # the table accepted it: every replica fed the same public play must accept it as well (C11)
+                        for s2, o2 in self.obs.items():
+                            if s2 in self.dead_obs:
+                                continue
+                            r2 = _try(o2.play_card_by_player, CARDS[card], PL[s])
+                            if r2[0] == 'exc':
+                                c.violate(f'C11:observer-rejects:{type(r2[1]).__name__}:accepted-{kind}',
+                                          f'{self.where()}: the table accepted the {kind} play of card {card} named for {s} (on turn: {active}) but the observer in seat {s2} refused it: {r2[1]!r}',
+                                          self.rp({'fault': [kind, s, card, name]}))
+                                break
                         self._after_damage()
                     self.dead_obs.add(seat_o)          # this replica has left the common history; the others go on
                     break
@@ -341,6 +370,8 @@ def run_playout(bid, declarer, deal, departures: Dict[int, int], c: Counter, fau
                 card = alts[departures[k]]
             if chooser is not None:
                 chooser(rig, seat)
+            if not departures and total == 52 and k % 7 == 2:
+                rig.deepcopy_probe()
             rig.play(card)
             rig.check(deep=(k % 4 == 3) or k in departures)
             if fault_from is not None and fault_from <= k + 1 <= fault_from + fault_span:
